@@ -610,7 +610,11 @@ impl<'a> GeneralCheck<'a> {
                     let check_rec =
                         |(i, op)| self.name_references_rule(cst, sema, rule, op).then_some(i);
                     let left_rec = concat_ops.next().and_then(check_rec);
-                    let right_rec = concat_ops.last().and_then(check_rec);
+                    let Some(last) = concat_ops.last() else {
+                        // a single operand is no operator branch
+                        continue;
+                    };
+                    let right_rec = check_rec(last);
 
                     if left_rec.is_some()
                         && (sema
